@@ -373,6 +373,13 @@ class SpecMixin:
             if name == 'fnan': return z3.fpNaN(F64)
             if name == 'f64':
                 c0 = z3.simplify(vals[0]); return z3.FPVal(float(c0.as_long()), F64)
+        if name == 'zx':      # zero-extend a bit-vector to 64 bits
+            a = self.sev(env, args[0])
+            return z3.ZeroExt(64 - a.size(), a) if a.size() < 64 else a
+        if name == 'deref':
+            x = self.sev(env, args[0])
+            if not isinstance(x, PtrV): raise Unsupported('deref of a non-pointer')
+            return self.load_ptr(env.st, x)
         if name == 'unboxint':
             from .gocalls import unbox_int
             return unbox_int(self.refof(self.sev(env, args[0])))
